@@ -208,6 +208,18 @@ def main():
     chk.assumptions = ['only the locales C, C.utf8 and POSIX exist in this image', 'with ASLR on the layout is not chosen by the harness; differences seen only there are reported but cannot be replayed exactly',
                        'the scanner may quote the path by which the input was named (normalised)']
     schemas = [(n, t, None) for n, t in gfam.valid_schemas(args.tier)]
+    # integer literals beyond 32 bits in every place a number can stand (what the front end makes of them must at least be the same every time)
+    schemas.append(('bigint', 'SCHEMA bigint;\nCONSTANT big : INTEGER := 4000000000; huge : INTEGER := 99999999999999999999; edge : INTEGER := 2147483648;\nEND_CONSTANT;\n'
+                    'TYPE txt = STRING (3000000000); END_TYPE;\nTYPE arr = ARRAY [1:5000000000] OF INTEGER; END_TYPE;\n'
+                    'ENTITY e; a : INTEGER; l : LIST [0:4294967296] OF REAL;\n DERIVE d : INTEGER := a + 6000000000;\n WHERE w1 : a < 8589934592;\nEND_ENTITY;\nEND_SCHEMA;\n', None))
+    # schemas of a multi-schema file that the generators write in several passes (their declarations wait for another schema): suffix files, appended headers
+    sys.path.insert(0, '/verif/checks')
+    import c17
+    ext = [(n, t) for n, t in c17.order_dependent(args.tier) if n.startswith('n_ord_ext_')]
+    for n, t in (ext if args.tier == 'thorough' else ext[:6]):
+        schemas.append((n, t, None))
+    schemas.append(('mutual_use', 'SCHEMA alpha;\nUSE FROM beta (worn_code);\nTYPE paint = ENUMERATION OF (red, green); END_TYPE;\nENTITY painted_pipe; finish : paint; wear : worn_code; END_ENTITY;\nEND_SCHEMA;\n'
+                    'SCHEMA beta;\nUSE FROM alpha (paint);\nTYPE worn_code = ENUMERATION OF (fresh, used); END_TYPE;\nENTITY worn_item; colour : paint; state : worn_code; END_ENTITY;\nEND_SCHEMA;\n', None))
     for n, p in gfam.shipped():
         if args.tier == 'thorough' or any(k in n for k in ('ap219', 'ap203/', 'inverse_attr', 'array_bounds_expr', 'select_data_type', 'ifc2x3', 'multiple_rep')):
             schemas.append(('shipped/' + n, None, p))
